@@ -342,7 +342,7 @@ def thresholds(repo, rep):
 
 
 def run(repo, rep, tier):
-    rep.rule("R-C19-7", "every parameter of the functions behind this property is read (partition tracking): none is accepted and then ignored")
+    rep.rule("R-C19-7", "every parameter of the functions behind this property is read (partition tracking): none is accepted and then ignored, and no control parameter (cutoff, limit, tolerance, window, count, switch) is replaced by another value before use (coercion and default filling aside)")
     from .shared import unused_parameters
     unused_parameters(repo, rep, "R-C19-7", ("wavespectra.partition.tracking", "wavespectra.partition.partition.Partition.ptm1_track"), "partition tracking")
     rep.rule("R-C19-1", "every identifier stored comes from the running counter (immediately incremented, scalar slot) or from the "
